@@ -3,6 +3,12 @@ from . import sched_run
 
 LEAN_TARGETS = ['DawgieVerif.Model.SchedIO']
 TRUSTED = sched_run.TRUSTED
+MANIFEST = dict(
+    text='Lean theorems over Model/Sched.lean for a failure/invalid reply in any state reached by any history: withdrawn (target gone from the pending work of the failed algorithm and every node the recursive purge visits), pending_frame (other targets and unrelated algorithms unchanged; nobody gains pending work), executing_frame (executing work of every other algorithm untouched), queue_not_grown, outcome_recorded (history = old history ++ [entry]), executing_unit_is_queued. Tied by correspondence with the real Hand._res/complete/purge; the monitor compares real node sets before/after each non-success reply against descriptor-level dependents.',
+    note='g.desc x (what _purge walks) is read from the real graph; that it is the set of transitive dependents is C09. chronicle.append is recorded by a fake (file format is C18). Trusted base as C01.',
+    technique='Lean 4 proof: frame theorems by case analysis + invariant + differential correspondence',
+    design='7/C05',
+)
 WANT = {'C05'}
 
 
